@@ -77,7 +77,20 @@ def make(cls, target, comp, rnd):
     raise ValueError(cls)
 
 
-def observe(serde, comp, decomp, inner_serde, value, compressed):
+def _same_shape(a, b, seen=None, depth=0):
+    """structural equality for self-referential values (== would recurse for ever)"""
+    if depth > 6:
+        return True
+    if type(a) is not type(b):
+        return False
+    if isinstance(a, list):
+        return len(a) == len(b) and all(_same_shape(x, y, seen, depth + 1) for x, y in zip(a, b))
+    if isinstance(a, dict):
+        return set(a) == set(b) and all(_same_shape(a[k], b[k], seen, depth + 1) for k in a)
+    return a == b
+
+
+def observe(serde, comp, decomp, inner_serde, value, compressed, cyclic=False):
     ev = {"e": "rt", "raised": "none", "outtype": "other", "flags": 0, "n": 0, "outlen": 0, "decok": False, "rawok": False,
           "eq": False, "ty": False, "eq2": True, "compressed_serde": compressed}
     try:
@@ -103,6 +116,10 @@ def observe(serde, comp, decomp, inner_serde, value, compressed):
         back = serde.deserialize(b"key", outb, flags)
     except Exception as e:   # noqa
         ev["raised"] = "deserialize:" + type(e).__name__
+        return ev
+    if cyclic:
+        ev["eq"] = _same_shape(back, value) and (back[2] is back if isinstance(back, list) else back["children"][0]["parent"] is back)
+        ev["ty"] = type(back) is type(value)
         return ev
     try:
         ev["eq"] = bool(back == value) and bool(value == back)
@@ -167,6 +184,24 @@ def main(tier, rep):
         ev = observe(sd, comp, decomp if g["wrap"] else (lambda b: b), inner, v, g["wrap"])
         evs.append(ev)
         pts.append((g, repr(v)[:60]))
+        if gi % 7 == 0:
+            # the same serde object right afterwards, with a value of ANOTHER type whose serialized bytes are the same
+            # (an int and its decimal text; bytes and the str they spell): nothing of the first call may stick
+            twin = str(v) if type(v) is int else v.decode("ascii") if type(v) is bytes and v.isascii() else \
+                v.encode("ascii") if type(v) is str and v.isascii() else None
+            if twin is not None:
+                evs.append(observe(sd, comp, decomp if g["wrap"] else (lambda b: b), inner, twin, g["wrap"]))
+                pts.append((dict(g, cls=g["cls"] + "-twin"), repr(twin)[:60]))
+        if gi % 11 == 0 and g["cls"] in ("list", "dict", "nested", "object"):
+            # values that reach themselves: a list containing itself, a dict pointing back at its parent
+            cyc = [1, "two"]
+            cyc.append(cyc)
+            par = {"name": "parent", "children": []}
+            par["children"].append({"name": "child", "parent": par})
+            for cv in (cyc, par):
+                e2 = observe(sd, comp, decomp if g["wrap"] else (lambda b: b), inner, cv, g["wrap"], cyclic=True)
+                evs.append(e2)
+                pts.append((dict(g, cls="cyclic"), "<self-referential>"))
     B = 500
     traces = [{"h": {"maxrej": B + 1}, "ev": evs[i:i + B]} for i in range(0, len(evs), B)]
     acc, rej, st, _ = tlc.validate_traces("SerdeTrace", traces, chunk=100)
